@@ -153,6 +153,7 @@ theorem prepN_ok {T : List Name} {files : Files} (hH : inH T files = true) {J : 
     ∃ ns' c', prepN files J inl n c = .ok (ns', c') ∧ PrepL T files z [n] ns' ∧ CacheInv T files c'
   | .text s, z, c, _, _, _, hc => ⟨_, _, rfl, .text .nil, hc⟩
   | .var x, z, c, _, _, _, hc => ⟨_, _, rfl, .var .nil, hc⟩
+  | .select, z, c, _, _, _, hc => ⟨_, _, rfl, .select .nil, hc⟩
   | .call m, z, c, _, hz, _, hc => by
     simp only [zoneFreeN, Bool.not_eq_true'] at hz
     subst hz
